@@ -218,24 +218,35 @@ def matcher_clone_obligations(ctx, rule):
               ("ports.cpp:Port_Matcher::rtosc_match_args", u.function("Port_Matcher::rtosc_match_args", required=False), True)]
     present = [(n, f, tm) for n, f, tm in others if f is not None]
     ctx.require(present, "no copy of the type-tag matcher left in ports.cpp")
+    takes_string = []
     for name, fn, tm in present:
         try:
             t2 = matcher_table(u, fn, tm)
         except FD.Unknown as e:
-            raise AnalysisBroken("%s: %s not evaluable: %s" % (rule, name, e))
+            if tm and "opaque message" in str(e):
+                # the copy reads its second parameter as the type string itself (it is handed the string its caller looked up):
+                # evaluated that way, its outside call sites checked like arg_matcher's below
+                try:
+                    t2 = matcher_table(u, fn, False)
+                    takes_string.append((name, fn))
+                except FD.Unknown as e2:
+                    raise AnalysisBroken("%s: %s not evaluable: %s" % (rule, name, e2))
+            else:
+                raise AnalysisBroken("%s: %s not evaluable: %s" % (rule, name, e))
         if any(v is None for v in t2.values()):
             raise AnalysisBroken("%s: %s has no verdict on a pattern without ':' (its callers hand over a port's whole argument specification)" % (rule, name))
         diff = [{"pattern": k[0], "type_string": k[1], "bytes_after_terminator": k[2], "dispatch.c": t1[k], name: t2[k]} for k in sorted(t1) if t1[k] is not None and t1[k] != t2[k]]
         ctx.ob(rule, "dispatch.c:rtosc_match_args == %s" % name, not diff, site=A.where(fn), detail={"probes": sum(1 for v_ in t1.values() if v_ is not None), "admitted": sum(v_ or 0 for v_ in t1.values()), "differences": diff[:6]},
                what="the type-tag matcher %s decides differently from dispatch.c's rtosc_match_args (e.g. %s): which type strings a port admits depends on the lookup strategy" % (name, diff[:2]))
-    # call sites of the copy that takes the type string itself
+    # call sites of the copies that take the type string itself
     am = u.function("arg_matcher", required=False)
-    if am is not None:
+    for am, amname in ([(am, "arg_matcher")] if am is not None else []) + [(f_, f_.get("name")) for _n, f_ in takes_string]:
         for q, fns in u.functions.items():
             for fn in fns:
                 if fn is am:
                     continue
-                for c in A.calls_in(u.body(fn), "arg_matcher"):
+                for c in [c_ for c_ in A.walk(u.body(fn)) if c_.get("kind") in ("CallExpr", "CXXMemberCallExpr") and
+                          (A.callee_name(c_) or (A.strip_casts(A.kids(c_)[0]).get("name") if A.kids(c_) else None)) == amname] if u.body(fn) is not None else []:
                     a = A.strip_casts(A.kids(c)[2])
                     ok = a.get("kind") == "CallExpr" and A.callee_name(a) == "rtosc_argument_string"
                     if not ok and a.get("kind") == "DeclRefExpr":
@@ -244,8 +255,8 @@ def matcher_clone_obligations(ctx, rule):
                         ok = init is not None and init.get("kind") == "CallExpr" and A.callee_name(init) == "rtosc_argument_string" and \
                             not any(y.get("kind") in ("BinaryOperator", "UnaryOperator", "CompoundAssignOperator") and A.ref_id(A.kids(y)[0]) == d["id"] and y.get("opcode") in ("=", "++", "--", "+=")
                                     for y in A.walk(u.body(fn)))
-                    ctx.ob(rule, "%s -> arg_matcher type string" % q, ok, site=A.where(c), detail={"argument": A.src(a)},
-                           what="%s hands arg_matcher `%s` as the type string instead of rtosc_argument_string(message)" % (q, A.src(a)))
+                    ctx.ob(rule, "%s -> %s type string" % (q, amname), ok, site=A.where(c), detail={"argument": A.src(a)},
+                           what="%s hands %s `%s` as the type string instead of rtosc_argument_string(message)" % (q, amname, A.src(a)))
 
 
 # ---------------------------------------------------------------------------------------------------------------------
